@@ -1,4 +1,5 @@
 import Proofs.Lemmas.Stop
+import Proofs.Lemmas.StopX
 /-!
 # C20 — stopping controllers stop exactly on their documented conditions, within budget
 
@@ -403,6 +404,313 @@ continuations each follow the law of a single controller fed (common prefix ++ o
 theorem copy_follows_own_history (stepf : St → Obs → St) (s : St) (pre post : List Obs) :
     (pre ++ post).foldl stepf s = post.foldl stepf (pre.foldl stepf s) := List.foldl_append
 
+/-! ## pass 3: IEEE special values, every batch shape, numeric driver loops, argument defaulting
+
+Model: `Pose/Model/StopX.lean`. -/
+
+/-- **The extended model contains the finite one.** With the exact IEEE rules for `inf`, `0` and NaN the single
+formula `(last - loss)/loss < d` reproduces, for all real `last`, `loss`, `d`, the case split of `relNoDec1`
+(first step after reset, zero loss, `0/0`); likewise the absolute test of StopOnPlateau. -/
+theorem ext_model_agrees_on_finite (d l x : ℝ) :
+    relNoDec1X (XF.num d) (XF.num l) (XF.num x) = relNoDec1 d (some l) x ∧
+    relNoDec1X (XF.num d) XF.pinf (XF.num x) = relNoDec1 d none x ∧
+    absNoDecX (XF.num d) (XF.num l) (XF.num x) = absNoDec d l x :=
+  ⟨relNoDec1X_num_num d l x, relNoDec1X_pinf_num d x, absNoDecX_num d l x⟩
+
+/-- **NaN losses.** Every comparison with a NaN is false: a NaN element is never "below tol" and never a
+"non-decrease" — neither as the new loss nor as the stored `last` — for any thresholds (also NaN/inf ones);
+StopOnPlateau: a NaN reading (or a NaN `decreasing`) never counts as a non-decrease. -/
+theorem nan_never_satisfies_a_criterion (d l x t : XF ℝ) :
+    relNoDec1X d l XF.nan = false ∧ relNoDec1X d XF.nan x = false ∧ XF.lt XF.nan t = false ∧
+    XF.lt x XF.nan = false ∧ absNoDecX d XF.nan x = false ∧ absNoDecX d x XF.nan = false ∧
+    absNoDecX XF.nan x x = false :=
+  ⟨(nan_tests d l x t).1, (nan_tests d l x t).2.1, (nan_tests d l x t).2.2.1, (nan_tests d l x t).2.2.2,
+   (absNoDecX_nan d x).1, (absNoDecX_nan d x).2.1, (absNoDecX_nan d x).2.2⟩
+
+/-- **Infinite and negative-zero losses** after a finite `last`: `±inf` is never a non-decrease (`(l ∓ inf)/±inf`
+is NaN); `-inf` is below every finite `tol`, `+inf` below none; a `-0.0` loss counts as a non-decrease iff
+`last > 0` — the opposite sign of the `+0.0` case (`last < 0`). -/
+theorem inf_and_negzero_losses (d : XF ℝ) (dd l tol : ℝ) :
+    relNoDec1X d (XF.num l) XF.pinf = false ∧ relNoDec1X d (XF.num l) XF.ninf = false ∧
+    XF.lt (XF.ninf : XF ℝ) (XF.num tol) = true ∧ XF.lt (XF.pinf : XF ℝ) (XF.num tol) = false ∧
+    relNoDec1X (XF.num dd) (XF.num l) XF.nzero = decide (0 < l) ∧
+    relNoDec1X (XF.num dd) (XF.num l) (XF.num 0) = decide (l < 0) := by
+  refine ⟨(inf_loss_tests d l tol).1, (inf_loss_tests d l tol).2.1, rfl, rfl, relNoDec1X_negzero dd l, ?_⟩
+  rw [relNoDec1X_num_num]
+  simp [relNoDec1]
+
+/-- **The batched criterion for every pair of shapes** (any scalar type, special values included):
+`torch.all((last - loss)/loss < d)` raises iff the shapes do not broadcast; otherwise it is the conjunction over
+every element `k` of the broadcast shape of the element test on the entries torch pairs with `k`.  Special cases
+for every shape `s`: `last` 0-dim (first step after `reset`) — every element of `loss` against that one value;
+`last` of the same shape as `loss` — element by element. -/
+theorem batched_criterion_every_shape {α : Type} [Scalar α] (d : XF α) (last loss : TX α) (l : XF α) (s : Batch.Shape)
+    (ls xs : List (XF α)) (hl : ls.length = Batch.numel s) (hx : xs.length = Batch.numel s) :
+    (relNoDecT d last loss = (Batch.broadcastShapes last.shape loss.shape).map fun out =>
+      (List.range (Batch.numel out)).all fun k => relNoDec1X d (last.bat out k) (loss.bat out k)) ∧
+    relNoDecT d (TX.scalar l) ⟨s, xs⟩ = some (xs.all fun x => relNoDec1X d l x) ∧
+    relNoDecT d ⟨s, ls⟩ ⟨s, xs⟩ = some ((List.zip ls xs).all fun p => relNoDec1X d p.1 p.2) :=
+  ⟨relNoDecT_spec d last loss, relNoDecT_scalar_last d l s xs hx, relNoDecT_same_shape d s ls xs hl hx⟩
+
+/-- On finite tensors of one shape the extended step is the step of the basic numeric model: observation and
+abstract state coincide (`last` of the same shape, or the 0-dim `inf` after a reset), for every shape. -/
+theorem ext_step_agrees_on_finite (c : Cfg) (d tol : ℝ) (st : St) (s : Batch.Shape) (ls xs : List ℝ)
+    (hl : ls.length = Batch.numel s) (hx : xs.length = Batch.numel s) :
+    rtbObsX (XF.num d) (XF.num tol) ⟨s, ls.map XF.num⟩ ⟨s, xs.map XF.num⟩ = some (rtbObs d tol (some ls) xs) ∧
+    rtbObsX (XF.num d) (XF.num tol) (TX.scalar XF.pinf) ⟨s, xs.map XF.num⟩ = some (rtbObs d tol none xs) ∧
+    (rtbStepX c (XF.num d) (XF.num tol) ⟨st, ⟨s, ls.map XF.num⟩⟩ ⟨s, xs.map XF.num⟩).map (·.st)
+      = some (rtbStepNum c d tol ⟨st, some ls⟩ xs).st := by
+  have hbelow : belowTolT (XF.num tol) (⟨s, xs.map XF.num⟩ : TX ℝ) = belowTol tol xs := by
+    simp only [belowTolT, TX.allLt, belowTol, List.all_map]
+    apply all_congr'
+    intro x _
+    rfl
+  have h1 : relNoDecT (XF.num d) (⟨s, ls.map XF.num⟩ : TX ℝ) ⟨s, xs.map XF.num⟩ = some (relNoDec d (some ls) xs) := by
+    rw [relNoDecT_same_shape (XF.num d) s _ _ (by simpa using hl) (by simpa using hx)]
+    congr 1
+    simp only [relNoDec, List.zip_map, List.all_map]
+    apply all_congr'
+    intro p _
+    simp [Function.comp, relNoDec1X_num_num]
+  have h2 : relNoDecT (XF.num d) (TX.scalar XF.pinf : TX ℝ) ⟨s, xs.map XF.num⟩ = some (relNoDec d none xs) := by
+    rw [relNoDecT_scalar_last (XF.num d) XF.pinf s _ (by simpa using hx)]
+    congr 1
+    simp only [relNoDec, List.all_map]
+    apply all_congr'
+    intro x _
+    simp [Function.comp, relNoDec1X_pinf_num]
+  refine ⟨?_, ?_, ?_⟩
+  · simp [rtbObsX, h1, hbelow, rtbObs]
+  · simp [rtbObsX, h2, hbelow, rtbObs]
+  · simp [rtbStepX, rtbObsX, h1, hbelow, rtbStepNum, rtbObs]
+
+/-- **`continual()` for histories with special values and changing shapes.** If `n` steps on the tensors
+`loss 0 … loss (n-1)` (any shapes that broadcast, NaN, inf, -0.0 allowed) do not raise, there is an observation stream —
+the one `rtbObsX` computes from `last = lastOf loss i` and `loss i` — such that the controller state is the abstract
+run on it; hence `continual()` is true iff none of the documented causes occurred, `last` is the last loss. -/
+theorem rtbRunX_spec {α : Type} [Scalar α] (c : Cfg) (d tol : XF α) (loss : Nat → TX α) (n : Nat) (s : RtbStX α)
+    (h : rtbRunX c d tol RtbStX.init loss n = some s) :
+    ∃ obs : Nat → Obs, (∀ i, i < n → rtbObsX d tol (lastOf loss i) (loss i) = some (obs i)) ∧
+      s.st = run (rtbStep c) St.init obs n ∧ s.last = lastOf loss n ∧
+      (s.st.cont = true ↔ ∀ i, i < n → ¬ rtbCause c obs i) := by
+  induction n generalizing s with
+  | zero =>
+    simp only [rtbRunX, Option.some.injEq] at h
+    subst h
+    exact ⟨fun _ => default, fun i hi => by omega, rfl, rfl, by simp [RtbStX.init, St.init]⟩
+  | succ n ih =>
+    simp only [rtbRunX] at h
+    cases hp : rtbRunX c d tol RtbStX.init loss n with
+    | none => simp [hp] at h
+    | some s' =>
+      rw [hp] at h
+      simp only [Option.bind_some, rtbStepX] at h
+      obtain ⟨obs, hobs, hst, hlast, _⟩ := ih s' hp
+      cases ho : rtbObsX d tol s'.last (loss n) with
+      | none => simp [ho] at h
+      | some o =>
+        simp only [ho, Option.map_some, Option.some.injEq] at h
+        subst h
+        let obs' : Nat → Obs := fun i => if i = n then o else obs i
+        have hrun : run (rtbStep c) St.init obs' n = run (rtbStep c) St.init obs n := by
+          have : ∀ m, m ≤ n → run (rtbStep c) St.init obs' m = run (rtbStep c) St.init obs m := by
+            intro m hm
+            induction m with
+            | zero => rfl
+            | succ m ihm =>
+              simp only [run]
+              rw [ihm (by omega)]
+              have : obs' m = obs m := by simp [obs']; intro hmn; omega
+              rw [this]
+          exact this n (Nat.le_refl n)
+        refine ⟨obs', ?_, ?_, rfl, ?_⟩
+        · intro i hi
+          by_cases hin : i = n
+          · subst hin; simp only [obs', if_true]; rw [← hlast]; exact ho
+          · simp only [obs', hin, if_false]; exact hobs i (by omega)
+        · simp only [run, hrun, ← hst]
+          simp [obs']
+        · have : (rtbStep c s'.st o) = run (rtbStep c) St.init obs' (n+1) := by
+            simp only [run, hrun, ← hst]; simp [obs']
+          rw [this]
+          exact rtb_continual_iff c obs' (n+1)
+
+/-- **A NaN anywhere in the loss resets the patience count** (0-dim `last` or `last` of the same shape): the step
+is observed as "decrease, not below tol", so `patience_count` becomes 0 and only the budget can stop. -/
+theorem nan_loss_resets_patience (c : Cfg) (d tol l : XF ℝ) (st : St) (s : Batch.Shape) (ls xs : List (XF ℝ))
+    (hl : ls.length = Batch.numel s) (hx : xs.length = Batch.numel s) (hnan : XF.nan ∈ xs) :
+    rtbObsX d tol (TX.scalar l) ⟨s, xs⟩ = some ⟨false, false, false⟩ ∧
+    rtbObsX d tol ⟨s, ls⟩ ⟨s, xs⟩ = some ⟨false, false, false⟩ ∧
+    (rtbStepX c d tol ⟨st, ⟨s, ls⟩⟩ ⟨s, xs⟩).map (·.st.pc) = some 0 := by
+  have hbelow : belowTolT tol (⟨s, xs⟩ : TX ℝ) = false := by
+    simp only [belowTolT, TX.allLt]
+    rw [List.all_eq_false]
+    exact ⟨XF.nan, hnan, by simp [(nan_tests d l l tol).2.2.1]⟩
+  have h1 : relNoDecT d (TX.scalar l) (⟨s, xs⟩ : TX ℝ) = some false := by
+    rw [relNoDecT_scalar_last d l s xs hx]
+    congr 1
+    rw [List.all_eq_false]
+    exact ⟨XF.nan, hnan, by simp [(nan_tests d l l tol).1]⟩
+  have h2 : relNoDecT d (⟨s, ls⟩ : TX ℝ) ⟨s, xs⟩ = some false := by
+    rw [relNoDecT_same_shape d s ls xs hl hx]
+    congr 1
+    rw [List.all_eq_false]
+    obtain ⟨i, hi, hxi⟩ := List.getElem_of_mem hnan
+    have hil : i < ls.length := by omega
+    refine ⟨(ls[i], xs[i]), ?_, ?_⟩
+    · exact List.mem_iff_getElem.mpr ⟨i, by simp [hil, hi], by simp⟩
+    · simp [hxi, (nan_tests d ls[i] l tol).1]
+  refine ⟨by simp [rtbObsX, h1, hbelow], by simp [rtbObsX, h2, hbelow], ?_⟩
+  simp [rtbStepX, rtbObsX, h2, hbelow, rtbStep]
+
+/-- **Numeric driver loop of `ICP.forward` / `MPC.forward`** on the batched losses the loop body produces, for every
+loss stream and every stepper state on entry: the number of controller steps is that of the abstract loop on the
+observations computed from the losses (`last` = previous loss, `inf` first), hence it is ≥ 1, ≤ `max 1 max_steps`,
+exactly the first index at which a documented cause occurs; kernel calls = steps + 1; the final numeric state is the
+numeric run and ends stopped. -/
+theorem forwardNum_spec (c : Cfg) (d tol : ℝ) (s : RtbSt ℝ) (loss : Nat → List ℝ) :
+    (forwardNum c d tol s loss).1 = (icpForward c s.st (obsOfLosses d tol none loss)).1 ∧
+    (forwardNum c d tol s loss).2.1 = (forwardNum c d tol s loss).1 + 1 ∧
+    (forwardNum c d tol s loss).2.2 = rtbRunNum c d tol RtbSt.init loss (forwardNum c d tol s loss).1 ∧
+    (forwardNum c d tol s loss).2.2.st.cont = false ∧
+    1 ≤ (forwardNum c d tol s loss).1 ∧ ((forwardNum c d tol s loss).1 : Int) ≤ max 1 c.maxSteps ∧
+    rtbCause c (obsOfLosses d tol none loss) ((forwardNum c d tol s loss).1 - 1) ∧
+    (∀ i, i + 1 < (forwardNum c d tol s loss).1 → ¬ rtbCause c (obsOfLosses d tol none loss) i) := by
+  have href := loopG_refines (rtbStepNum c d tol) (fun s => s.st) (fun s x => rtbObs d tol s.last x) (rtbStep c)
+    (fun s x => rfl) loss (fuelFor c (rtbResetNum s).st) 0 (rtbResetNum s)
+  have hobs : (fun j => rtbObs d tol (runG (rtbStepNum c d tol) (rtbResetNum s) (fun t => loss (0 + t)) (j - 0)).last (loss j))
+      = obsOfLosses d tol none loss := by
+    funext j
+    have e : (fun t => loss (0 + t)) = loss := by funext t; simp
+    rw [e, Nat.sub_zero, ← rtbRunNum_eq_runG, rtbRunNum_last]
+    cases j <;> rfl
+  rw [hobs] at href
+  obtain ⟨h1, h2, h3, _⟩ := href
+  have hicp : (icpForward c s.st (obsOfLosses d tol none loss)).1
+      = (loop (rtbStep c) (obsOfLosses d tol none loss) (fuelFor c (rtbReset s.st)) 0 (rtbReset s.st)).1 := rfl
+  have hfw : (forwardNum c d tol s loss).1
+      = (loopG (rtbStepNum c d tol) (fun s => s.st.cont) loss (fuelFor c (rtbResetNum s).st) 0 (rtbResetNum s)).1 := rfl
+  have hfw2 : (forwardNum c d tol s loss).2.2
+      = (loopG (rtbStepNum c d tol) (fun s => s.st.cont) loss (fuelFor c (rtbResetNum s).st) 0 (rtbResetNum s)).2 := rfl
+  have hcnt : (forwardNum c d tol s loss).1 = (icpForward c s.st (obsOfLosses d tol none loss)).1 := by
+    rw [hfw, hicp]; exact h1
+  have hb := icp_bounded c s.st (obsOfLosses d tol none loss)
+  have hc := (icp_mpc_count_first_cause c 0 s.st (obsOfLosses d tol none loss)).1
+  refine ⟨hcnt, rfl, ?_, ?_, ?_, ?_, ?_, ?_⟩
+  · rw [hfw2, h2]
+    have e : (fun t => loss (0 + t)) = loss := by funext t; simp
+    rw [e, Nat.sub_zero, ← rtbRunNum_eq_runG, ← hfw]
+    rfl
+  · rw [hfw2, h3]
+    exact hb.2.2.2
+  · rw [hcnt]; exact hb.1
+  · rw [hcnt]; exact hb.2.1
+  · rw [hcnt]; exact hc.2.1
+  · rw [hcnt]; exact hc.2.2
+
+/-- **Numeric driver loop of `StopOnPlateau.optimize`** on the optimizer's readings `(last, loss, reject_count)`,
+from any scheduler state: the number of `optimizer.step` calls is that of the abstract loop on the observations
+`sopObs d (o i)`; from the constructor state it is ≥ 1, ≤ `steps` (for `steps ≥ 1`), exactly the first index at which
+a documented cause occurs. -/
+theorem optimizeNum_spec (c : Cfg) (d : ℝ) (s : St) (o : Nat → OptObs ℝ) :
+    (optimizeNum c d s o).1 = (optimize c s (fun i => sopObs d (o i))).1 ∧
+    (optimizeNum c d s o).2 = (optimize c s (fun i => sopObs d (o i))).2 ∧
+    (optimizeNum c d s o).2.cont = false ∧
+    ((optimizeNum c d s o).1 : Int) ≤ max 1 (c.maxSteps - (s.steps : Int)) ∧
+    (s = St.init → 1 ≤ (optimizeNum c d s o).1 ∧
+      sopCause c (fun i => sopObs d (o i)) ((optimizeNum c d s o).1 - 1) ∧
+      ∀ i, i + 1 < (optimizeNum c d s o).1 → ¬ sopCause c (fun i => sopObs d (o i)) i) := by
+  have href := loopG_refines (sopStepNum c d) (fun s => s) (fun _ x => sopObs d x) (sopStep c)
+    (fun s x => rfl) o (fuelFor c s) 0 s
+  obtain ⟨h1, _, h3, _⟩ := href
+  have e1 : (optimizeNum c d s o).1 = (optimize c s (fun i => sopObs d (o i))).1 := h1
+  have e2 : (optimizeNum c d s o).2 = (optimize c s (fun i => sopObs d (o i))).2 := h3
+  have hb := optimize_bounded c s (fun i => sopObs d (o i))
+  refine ⟨e1, e2, by rw [e2]; exact hb.2.1, by rw [e1]; exact hb.2.2.2, ?_⟩
+  intro hs
+  subst hs
+  rw [e1]
+  exact optimize_count_first_cause c (fun i => sopObs d (o i))
+
+/-- **Argument defaulting.** Every optional argument given: the constructor installs exactly the arguments. Omitted:
+`patience = 5`, `decreasing = 1/1000`, `tol = 1/100000`; `ICP()` builds a 200-step stepper, `MPC(…)` a 10-step one
+and then takes one off. Consequently a default ICP performs at most 200 controller steps (201 `svdtf` calls) and a
+default MPC at most 9 (10 `lqr` calls), whatever the losses. -/
+theorem defaults_spec (steps p : Int) (d tol : ℝ) (s : St) (obs : Nat → Obs) :
+    rtbOfArgs ⟨steps, some p, some d, some tol⟩ = (⟨steps, p⟩, d, tol) ∧
+    rtbOfArgs (⟨steps, none, none, none⟩ : RtbArgs ℝ) = (⟨steps, 5⟩, 1 / 1000, 1 / 100000) ∧
+    (icpStepper (none : Option (RtbArgs ℝ))).1 = ⟨200, 5⟩ ∧ (mpcStepper (none : Option (RtbArgs ℝ))).1 = ⟨9, 5⟩ ∧
+    (icpForward (icpStepper (none : Option (RtbArgs ℝ))).1 s obs).1 ≤ 200 ∧
+    (icpForward (icpStepper (none : Option (RtbArgs ℝ))).1 s obs).2.1 ≤ 201 ∧
+    (mpcForward (mpcStepper (none : Option (RtbArgs ℝ))).1 s obs).1 ≤ 9 ∧
+    (mpcForward (mpcStepper (none : Option (RtbArgs ℝ))).1 s obs).2.1 ≤ 10 := by
+  have hi : (icpStepper (none : Option (RtbArgs ℝ))).1 = ⟨200, 5⟩ := rfl
+  have hm : (mpcStepper (none : Option (RtbArgs ℝ))).1 = ⟨9, 5⟩ := by
+    simp [mpcStepper, rtbOfArgs, mpcInit]
+  have b1 := icp_bounded ⟨200, 5⟩ s obs
+  have b2 := icp_bounded ⟨9, 5⟩ s obs
+  refine ⟨rfl, ?_, hi, hm, ?_, ?_, ?_, ?_⟩
+  · simp [rtbOfArgs]
+  · rw [hi]; have := b1.2.1; simp only at this; omega
+  · rw [hi, b1.2.2.1]; have := b1.2.1; simp only at this; omega
+  · rw [hm]; have := b2.2.1; simp only [mpcForward, icpForward] at this ⊢; omega
+  · rw [hm]
+    have h := b2.2.1
+    have hc := b2.2.2.1
+    simp only [mpcForward, icpForward] at h hc ⊢
+    omega
+
+/-- **Error path.** A step raises exactly when the shape of the stored `last` and the shape of the new loss do not
+broadcast (`torch.broadcast_shapes` fails); in particular never on the first step after a `reset` (0-dim `last`) and
+never when the loss keeps its shape. -/
+theorem step_raises_iff {α : Type} [Scalar α] (c : Cfg) (d tol : XF α) (s : RtbStX α) (loss : TX α) :
+    (rtbStepX c d tol s loss = none ↔ Batch.broadcastShapes s.last.shape loss.shape = none) ∧
+    (rtbStepX c d tol RtbStX.init loss).isSome = true ∧
+    (s.last.shape = loss.shape → (rtbStepX c d tol s loss).isSome = true) := by
+  have key : ∀ (l : TX α), (rtbStepX c d tol ⟨s.st, l⟩ loss).isSome = (Batch.broadcastShapes l.shape loss.shape).isSome := by
+    intro l
+    simp only [rtbStepX, rtbObsX, Option.isSome_map, relNoDecT_spec]
+  refine ⟨?_, ?_, ?_⟩
+  · have := key s.last
+    cases h1 : rtbStepX c d tol s loss <;> cases h2 : Batch.broadcastShapes s.last.shape loss.shape <;>
+      simp_all
+  · have := key (TX.scalar XF.pinf)
+    have e : (⟨s.st, TX.scalar XF.pinf⟩ : RtbStX α) = ⟨s.st, TX.scalar XF.pinf⟩ := rfl
+    simp only [rtbStepX, rtbObsX, Option.isSome_map, relNoDecT_spec, RtbStX.init, TX.scalar, broadcastShapes_nil_left,
+      Option.isSome_some]
+  · intro h
+    rw [key s.last, h, broadcastShapes_self]
+    rfl
+
+/-- Hence a history whose losses all have one shape (any shape, any values incl. NaN) never raises, for every
+length — the hypothesis of `rtbRunX_spec` is satisfied. -/
+theorem constant_shape_never_raises {α : Type} [Scalar α] (c : Cfg) (d tol : XF α) (loss : Nat → TX α) (sh : Batch.Shape)
+    (hsh : ∀ i, (loss i).shape = sh) (n : Nat) :
+    ∃ s, rtbRunX c d tol RtbStX.init loss n = some s ∧ s.last = lastOf loss n := by
+  induction n with
+  | zero => exact ⟨RtbStX.init, rfl, rfl⟩
+  | succ n ih =>
+    obtain ⟨s, hs, hl⟩ := ih
+    have hsome : (rtbStepX c d tol s (loss n)).isSome = true := by
+      cases n with
+      | zero =>
+        simp only [rtbRunX, Option.some.injEq] at hs
+        subst hs
+        exact (step_raises_iff c d tol RtbStX.init (loss 0)).2.1
+      | succ m =>
+        apply (step_raises_iff c d tol s (loss (m+1))).2.2
+        rw [hl]
+        simp [lastOf, hsh]
+    obtain ⟨s', hs'⟩ := Option.isSome_iff_exists.mp hsome
+    refine ⟨s', by simp [rtbRunX, hs, hs'], ?_⟩
+    simp only [rtbStepX] at hs'
+    cases ho : rtbObsX d tol s.last (loss n) with
+    | none => simp [ho] at hs'
+    | some o =>
+      simp only [ho, Option.map_some, Option.some.injEq] at hs'
+      subst hs'
+      rfl
+
 /-! ## what the driver executes is the model the theorems are about -/
 
 /-- the executable trace on a list is the sequence of `run` states -/
@@ -448,5 +756,15 @@ example : ∃ loss : Nat → List ℝ, (∀ i, loss i ≠ []) ∧ (∀ i, ∀ x 
     rcases hx with rfl | rfl
     · positivity
     · norm_num, by norm_num⟩
+
+-- pass 3: hypotheses are satisfiable by non-trivial values
+example : ([XF.num 1, XF.nan, XF.pinf, XF.nzero, XF.num 2, XF.num 3] : List (XF ℝ)).length = Batch.numel [2, 3] ∧
+    XF.nan ∈ ([XF.num 1, XF.nan, XF.pinf, XF.nzero, XF.num 2, XF.num 3] : List (XF ℝ)) := by
+  constructor
+  · rfl
+  · simp
+example : ∃ s, rtbRunX (α := ℝ) ⟨9, 2⟩ (XF.num (1/2)) (XF.num 1) RtbStX.init (fun i => ⟨[2], [XF.num (4 - i), XF.nan]⟩) 5 = some s :=
+  (constant_shape_never_raises ⟨9, 2⟩ _ _ _ [2] (fun _ => rfl) 5).imp fun _ h => h.1
+example : Batch.broadcastShapes [3, 1] [1, 3] = some [3, 3] ∧ Batch.broadcastShapes [3] [2] = none := by decide
 
 end PP.Stop
